@@ -29,9 +29,10 @@ func guard(t fataler, what string, f func()) {
 
 // checker carries the sandbox and the last snapshot through a sequence of operations.
 type checker struct {
-	t    fataler
-	sb   *sandbox
-	last snapshot
+	t     fataler
+	sb    *sandbox
+	last  snapshot
+	scope string // the directory the name must stay inside (for messages); default: the sandbox root
 }
 
 func newChecker(t fataler, sb *sandbox) *checker {
@@ -41,15 +42,19 @@ func newChecker(t fataler, sb *sandbox) *checker {
 // settle compares the sandbox with the last snapshot. mustBeUntouched demands an
 // identical sandbox; otherwise only paths accepted by skip may differ.
 func (c *checker) settle(what string, mustBeUntouched bool, skip func(string) bool) {
-	now := takeSnapshot(c.t, c.sb.top)
+	now := takeSnapshot(c.t, c.sb.top, c.last)
 	if mustBeUntouched {
 		skip = nil
 	}
 	if d := c.sb.diff(c.last, now, skip); len(d) > 0 {
-		if mustBeUntouched {
-			c.t.Fatalf("%s: the name escapes the root %s, yet the sandbox changed: %s", what, c.sb.rel(c.sb.root), strings.Join(d, "; "))
+		scope := c.scope
+		if scope == "" {
+			scope = c.sb.root
 		}
-		c.t.Fatalf("%s: files outside the root %s changed: %s", what, c.sb.rel(c.sb.root), strings.Join(d, "; "))
+		if mustBeUntouched {
+			c.t.Fatalf("%s: the name escapes %s, yet the sandbox changed: %s", what, c.sb.rel(scope), strings.Join(d, "; "))
+		}
+		c.t.Fatalf("%s: files outside %s changed: %s", what, c.sb.rel(scope), strings.Join(d, "; "))
 	}
 	c.last = now
 }
@@ -75,6 +80,10 @@ func openFstree(t fataler, sb *sandbox) storage.Interface {
 	return st
 }
 
+func fstreeMustReject(where place, op int) bool {
+	return where == escaping || (where == atRoot && op != opQuery)
+}
+
 // fstreeOp runs one storage operation with the given key (or query prefix) and checks it.
 func (c *checker) fstreeOp(st storage.Interface, op int, key string) place {
 	sb := c.sb
@@ -84,7 +93,7 @@ func (c *checker) fstreeOp(st storage.Interface, op int, key string) place {
 	// A record key names a file strictly below the root: the root directory
 	// itself is not inside "root + separator". A query prefix that resolves to
 	// the root selects everything and is fine.
-	mustReject := where == escaping || (where == atRoot && op != opQuery)
+	mustReject := fstreeMustReject(where, op)
 
 	var err error
 	var got []record.Record
@@ -161,34 +170,44 @@ const (
 
 var dsOpNames = [...]string{"EnsureAbsPath", "EnsureRelPath", "EnsureRelDir", "ChildDir.Ensure", "ChildDir(in).EnsureRelPath"}
 
+// dsTarget is the path a DirStructure call asks for (before cleaning).
+func dsTarget(root string, op int, arg string) string {
+	switch op {
+	case dsAbs:
+		return arg
+	case dsRelDir:
+		return filepath.Join(append([]string{root}, strings.Split(arg, "/")...)...)
+	case dsChildRel:
+		return filepath.Join(root, "in", arg)
+	default:
+		return filepath.Join(root, arg)
+	}
+}
+
+// dsCall performs the DirStructure call on a fresh structure rooted at root.
+func dsCall(root string, op int, arg string, perm os.FileMode) error {
+	ds := utils.NewDirStructure(root, perm)
+	switch op {
+	case dsAbs:
+		return ds.EnsureAbsPath(arg)
+	case dsRelPath:
+		return ds.EnsureRelPath(arg)
+	case dsRelDir:
+		return ds.EnsureRelDir(strings.Split(arg, "/")...)
+	case dsChild:
+		return ds.ChildDir(arg, perm).Ensure()
+	default:
+		return ds.ChildDir("in", perm).EnsureRelPath(arg)
+	}
+}
+
 // dirStructureOp runs one DirStructure call. For dsAbs arg is an absolute path, otherwise a relative name.
 func (c *checker) dirStructureOp(op int, arg string, perm os.FileMode) place {
 	sb := c.sb
-	ds := utils.NewDirStructure(sb.root, perm)
-	var target string
 	var err error
 	what := fmt.Sprintf("DirStructure(root=%s,perm=%o).%s(%q)", sb.rel(sb.root), perm, dsOpNames[op], strings.ReplaceAll(arg, sb.top, "<top>"))
-	guard(c.t, what, func() {
-		switch op {
-		case dsAbs:
-			target = arg
-			err = ds.EnsureAbsPath(arg)
-		case dsRelPath:
-			target = filepath.Join(sb.root, arg)
-			err = ds.EnsureRelPath(arg)
-		case dsRelDir:
-			parts := strings.Split(arg, "/")
-			target = filepath.Join(append([]string{sb.root}, parts...)...)
-			err = ds.EnsureRelDir(parts...)
-		case dsChild:
-			target = filepath.Join(sb.root, arg)
-			err = ds.ChildDir(arg, perm).Ensure()
-		case dsChildRel:
-			child := ds.ChildDir("in", perm)
-			target = filepath.Join(child.Path, arg)
-			err = child.EnsureRelPath(arg)
-		}
-	})
+	target := dsTarget(sb.root, op, arg)
+	guard(c.t, what, func() { err = dsCall(sb.root, op, arg, perm) })
 	where := locate(sb.root, target)
 	if where == escaping && err == nil {
 		c.t.Fatalf("%s returned no error although the cleaned path %s is outside the root", what, sb.rel(filepath.Clean(target)))
@@ -244,6 +263,8 @@ type zipEntry struct {
 const (
 	zipIdentifier = "pkg/archive.zip"
 	zipVersion    = "1.0.0"
+	// extractionDirName is the directory below <storage>/tmp the archive is extracted into.
+	extractionDirName = "archive_v1-0-0"
 )
 
 func buildZip(t fataler, entries []zipEntry) []byte {
@@ -314,6 +335,7 @@ func unpackOp(t fataler, sb *sandbox, entries []zipEntry) bool {
 	what := fmt.Sprintf("UnpackResources(storage=%s, zip entries %q)", sb.rel(sb.root), names)
 
 	c := newChecker(t, sb)
+	c.scope = tmpDir
 	var err error
 	guard(t, what, func() { err = reg.UnpackResources() })
 	if escapes && err == nil {
